@@ -187,3 +187,14 @@ package validators
 //@ loop 0 invariant forall(p, 0, len(classified.path), exists(k, 0, _n, attrAt(receiver, k).Name == annotations.GleeceAnnotationPath && classified.path[p] == attrAt(receiver, k)))
 //@ loop 0 invariant forall(k, 0, _n, implies(isNonPathAttr(attrAt(receiver, k)), exists(p, 0, len(classified.nonPathAttributes), classified.nonPathAttributes[p] == attrAt(receiver, k))))
 //@ loop 0 invariant forall(p, 0, len(classified.nonPathAttributes), exists(k, 0, _n, isNonPathAttr(attrAt(receiver, k)) && classified.nonPathAttributes[p] == attrAt(receiver, k)))
+
+// ---- one value, one binding annotation (C10): a value already used by an annotation that demands uniqueness is an error ----
+//@ func CommonValidator.getDiagnosticForAttribute props C18,C10,C14
+//@ requires g != nil && g.holder != nil
+//@ ensures result.Severity == severity && result.Code == string(code) && result.Message == message && result.FilePath == g.holder.fileName
+//@ func CommonValidator.validateUniqueValue props C10,C14,C18
+//@ requires g != nil && g.holder != nil && uniqueValues != nil
+//@ modifies elems(uniqueValues)
+//@ ensures iff: (result != nil) == (def.RequiresUniqueValue && attr.Value != "" && old(indom(uniqueValues, attr.Value)))
+//@ ensures sev: implies(result != nil, result.Severity == diagnostics.DiagnosticError && result.Code == string(diagnostics.DiagAnnotationDuplicateValue) && result.FilePath == g.holder.fileName)
+//@ ensures marked: forall(x, string, indom(uniqueValues, x) == (old(indom(uniqueValues, x)) || (def.RequiresUniqueValue && x == attr.Value)))
